@@ -748,7 +748,9 @@ def eff4(units, R):
             return True
         ps = protos.get(cn)
         if ps is None or i >= len(ps):
-            return True   # variadic or unknown: assume written (sprintf's first argument is declared)
+            # no prototype in the exported units (a libc function) or a variadic position: the argument's type after the implicit
+            # conversion to the parameter type decides - strchr(const char *, int) cannot write, sprintf(char *, ...) can
+            return not argty.get('pointee_const', False)
         t = ps[i]
         return t['c'] == 'ptr' and not t.get('pointee_const', False)
 
